@@ -57,6 +57,7 @@ enum { F_NULL, F_IDENT, F_XOR, F_NEEDMORE };
 static int g_type, g_filt, g_opts, g_depth, g_tls;     /* g_tls: 0 none, 1 openssl, 2 mbedtls */
 static const char *g_tname = "pair";
 static int g_final = 1, g_big = 60000;
+static int g_finalraise;   /* -P finalraise=1: the final drain RAISES non-zero read high marks (to 1 MiB) instead of clearing them */
 static int g_bpol = 0, g_bwm = 0;      /* initial reader policy and high read mark of end B (-P bpol=, -P bwm=): shortens histories */
 
 #define PATLEN (1u << 20)
@@ -946,7 +947,16 @@ static void final_drain(void)
 		for (int i = 0; i < c->nstack; i++) {
 			size_t lo, hi, wlo, whi;
 			bufferevent_getwatermark(c->stack[i], EV_READ, &lo, &hi); bufferevent_getwatermark(c->stack[i], EV_WRITE, &wlo, &whi);
-			if (lo || hi || wlo || whi) { bufferevent_setwatermark(c->stack[i], EV_READ | EV_WRITE, 0, 0); c->since_eof = "setwatermark"; }
+			if (lo || hi || wlo || whi) {
+				if (g_finalraise && hi) {
+					/* "changed while suspended": a larger, still non-zero mark above what is buffered must let
+					 * the stream flow again just as removing the mark does (C17: nothing written may be lost) */
+					bufferevent_setwatermark(c->stack[i], EV_WRITE, 0, 0);
+					bufferevent_setwatermark(c->stack[i], EV_READ, 0, 1 << 20);
+				} else
+					bufferevent_setwatermark(c->stack[i], EV_READ | EV_WRITE, 0, 0);
+				c->since_eof = "setwatermark";
+			}
 		}
 		short missing = (EV_READ | EV_WRITE) & ~bufferevent_get_enabled(c->bev);
 		if (missing) { app_enable(c, missing); bufferevent_enable(c->bev, missing); }
@@ -1183,6 +1193,7 @@ int main(int argc, char **argv)
 		else if (!strncmp(a, "opts=", 5)) opts = a + 5;
 		else if (!strncmp(a, "prop=", 5)) prop = a + 5;
 		else if (!strncmp(a, "depth=", 6)) g_depth = atoi(a + 6);
+		else if (!strncmp(a, "finalraise=", 11)) g_finalraise = atoi(a + 11);
 		else if (!strncmp(a, "final=", 6)) g_final = atoi(a + 6);
 		else if (!strncmp(a, "big=", 4)) g_big = atoi(a + 4);
 		else if (!strncmp(a, "bwm=", 4)) g_bwm = atoi(a + 4);
